@@ -7,8 +7,8 @@ import Isotp.Proofs.Tx
   * `Spec.segment tc p` (Isotp/Spec/Segment.lean) is the reference segmentation; `segOf s p` is the same thing
     for the configuration/address of the layer state `s`; `msgFor s r0 p d` is the CAN message that must carry
     the data field `d` (arbitration id, 11/29-bit flag, FD / BRS flags of the configuration, DLC from the table).
-  * `Fresh r0 p`: `r0` is the `SendRequest` for payload `p` as `send()` builds it (bytes payload, or a generator
-    that does yield at least `size` values; short generators are C17).
+  * `Fresh r0 p`: `r0` is the `SendRequest` for payload `p` as `send()` builds it; `Full r0 p`: the payload is a
+    bytes object, or a generator that does yield at least `size` values (generators that end early are C17).
   * `TxInv0 s r0 p k`: `k` frames of `p` have been handed to the CAN layer and the transfer is still going on
     (queued at the head of the queue / first frame parked by the rate limiter / waiting for FC / sending CFs).
   * `Pass`, `RunRes`: outcome of one `_process_tx` pass / of an arbitrary run of API calls.
@@ -157,7 +157,8 @@ example : makeTxMsg exCfg exAddr 0x123 [0x02, 0xAA, 0xBB] =
 example : makeTxMsg exCfgFd exAddr 0x123 ([0x00, 11] ++ List.replicate 11 7) =
     some { id := 0x123, ext := false, data := [0x00, 11] ++ List.replicate 11 7 ++ [0xAA, 0xAA, 0xAA], dlc := 10,
            fd := true } := by decide
-example : Fresh exReq exPayload := ⟨⟨rfl, by decide, by decide, rfl⟩, rfl⟩
+theorem exFresh : Fresh exReq exPayload := ⟨⟨rfl, by decide, by decide, rfl⟩, rfl⟩
+theorem exFull : Full exReq exPayload := by unfold Full; decide
 example : TxQueued exState exReq := ⟨rfl, rfl, [], rfl⟩
 
 /-! ## C. the transmit FSM emits the reference segmentation -/
@@ -167,33 +168,34 @@ example : TxQueued exState exReq := ⟨rfl, rfl, [], rfl⟩
     completes the request at once (`Finished`: FSM idle, `complete(True)` logged), a First Frame leaves the FSM
     waiting for the Flow Control with 1 frame out (`TxInv … 1`). -/
 theorem startTx_segment (s : State) (r0 : Req) (allowed : Nat) (p : Bytes) (hv : s.cfg.valid = true)
-    (hfr : Fresh r0 p) (h1 : 1 ≤ p.length) (hn : p.length < 4294967296) :
+    (hfr : Fresh r0 p) (hfull : Full r0 p) (h1 : 1 ≤ p.length) (hn : p.length < 4294967296) :
     Advance s (s.startTx r0 allowed).1 (s.startTx r0 allowed).2 r0 p 0 :=
-  startTx_adv s r0 allowed p hv hfr h1 hn
+  startTx_adv s r0 allowed p hv hfr h1 hn (Nat.le_trans (firstPull_le _ (valid_of _ _ hv) _) hfull)
 
 example : Advance exState (exState.startTx exReq 1000).1 (exState.startTx exReq 1000).2 exReq exPayload 0 :=
-  startTx_segment _ _ _ _ (by decide) ⟨⟨rfl, by decide, by decide, rfl⟩, rfl⟩ (by decide) (by decide)
+  startTx_segment _ _ _ _ (by decide) exFresh exFull (by decide) (by decide)
 
 /-- (C2) `transmitCf` with `k ≥ 1` frames out: it emits nothing and changes nothing about the progress, or emits
     exactly frame `k`; then either more frames remain (`TxInv … (k+1)`, still sending or waiting for the next FC) or
     `k` was the last frame and the request completed with `complete(True)`, FSM idle. -/
 theorem transmitCf_segment (s : State) (allowed : Nat) (r0 : Req) (p : Bytes) (k : Nat)
-    (hv : s.cfg.valid = true) (hfr : Fresh r0 p) (hi : TxProg s r0 p k) (hst : s.txState = .transmitCf) :
+    (hv : s.cfg.valid = true) (hfr : Fresh r0 p) (hfull : Full r0 p) (hi : TxProg s r0 p k)
+    (hst : s.txState = .transmitCf) :
     Advance s (s.transmitCf allowed).1 (s.transmitCf allowed).2.1 r0 p k :=
-  txFsm_prog_cf s allowed r0 p k hv hfr hi hst
+  txFsm_prog_cf s allowed r0 p k hv hfr hi hst (Nat.le_trans (carried_le _ _ _) hfull)
 
 /-- (C3) One data pass of `_process_tx` from the moment the request is at the head of the queue: nothing emitted and
     the progress unchanged; or exactly frame `k` emitted and the progress advanced; or frame `k` was the last and the
     request completed; or the transfer failed (Overflow FC, N_Bs timeout, too many Wait frames): then
     `complete(False)` is logged and the FSM left the transfer. No Python exception is raised in the first three. -/
 theorem processTx_segment (s : State) (r0 : Req) (p : Bytes) (k : Nat)
-    (hv : s.cfg.valid = true) (hfr : Fresh r0 p) (h1 : 1 ≤ p.length) (hn : p.length < 4294967296)
+    (hv : s.cfg.valid = true) (hfr : Fresh r0 p) (hfull : Full r0 p) (h1 : 1 ≤ p.length) (hn : p.length < 4294967296)
     (hexc : s.exc = none) (hfc : FcOk s) (hd : fcPass s = false) (hi : TxInv0 s r0 p k) :
     Pass s s.processTx.1 s.processTx.2.1 r0 p k :=
-  processTx_pass s r0 p k hv hfr h1 hn hexc hfc hd hi
+  processTx_pass s r0 p k hv hfr hfull h1 hn hexc hfc hd hi
 
 example : Pass exState exState.processTx.1 exState.processTx.2.1 exReq exPayload 0 :=
-  processTx_segment _ _ _ _ (by decide) ⟨⟨rfl, by decide, by decide, rfl⟩, rfl⟩ (by decide) (by decide) rfl
+  processTx_segment _ _ _ _ (by decide) exFresh exFull (by decide) (by decide) rfl
     (by intro h; cases h) rfl (Or.inl ⟨rfl, rfl, rfl, [], rfl⟩)
 
 /-- (C3) A pass that sends the Flow Control requested by the receive side emits that FC frame and does not touch the
@@ -217,10 +219,10 @@ theorem ops_preserve (s : State) (o : Op) (r0 : Req) (p : Bytes) (k : Nat) (hi :
     reference segmentation of `p`, in order, with the id / flags / DLC of part A — a strict prefix while the transfer
     is in flight, all of them when `complete(True)` is logged; otherwise the transfer failed at some pass. -/
 theorem frames_are_segmentation (s0 : State) (r0 : Req) (p : Bytes) (hv : s0.cfg.valid = true) (hfr : Fresh r0 p)
-    (h1 : 1 ≤ p.length) (hn : p.length < 4294967296) (steps : List Step) (s : State) (k : Nat)
+    (hfull : Full r0 p) (h1 : 1 ≤ p.length) (hn : p.length < 4294967296) (steps : List Step) (s : State) (k : Nat)
     (hl : Live s0 s) (hi : TxInv0 s r0 p k) :
     RunRes s0 r0 p k steps s :=
-  run_segment s0 r0 p hv hfr h1 hn steps s k hl hi
+  run_segment s0 r0 p hv hfr hfull h1 hn steps s k hl hi
 
 /-- the example transfer, end to end: FF, (FC from the peer), CF 1, CF 2 -/
 example : (run [.tx, .op (.rx exFc), .tx, .tx] exState).2.map (·.data) = segment (TxCfg.of exCfg exAddr) exPayload := by
@@ -228,7 +230,7 @@ example : (run [.tx, .op (.rx exFc), .tx, .tx] exState).2.map (·.data) = segmen
 example : Ev.done 7 true ∈ (run [.tx, .op (.rx exFc), .tx, .tx] exState).1.log := by decide
 example : Live exState exState := ⟨rfl, rfl, rfl, by intro h; cases h⟩
 example : RunRes exState exReq exPayload 0 [.tx, .op (.rx exFc), .tx, .tx] exState :=
-  frames_are_segmentation _ _ _ (by decide) ⟨⟨rfl, by decide, by decide, rfl⟩, rfl⟩ (by decide) (by decide) _ _ _
+  frames_are_segmentation _ _ _ (by decide) exFresh exFull (by decide) (by decide) _ _ _
     ⟨rfl, rfl, rfl, by intro h; cases h⟩ (Or.inl ⟨rfl, rfl, rfl, [], rfl⟩)
 
 /-! ## D. `send()` refuses what cannot be announced -/
@@ -254,7 +256,7 @@ theorem send_queues (s : State) (a : SendArgs) (h0 : 0 ≤ a.size) (h1 : a.size 
 
 /-- The queued request is `Fresh` for the first `size` values of a bytes payload / long-enough generator. -/
 theorem send_fresh (s : State) (a : SendArgs) (p : Bytes) (hs : a.size = p.length) (hp : a.src.take p.length = p) :
-    Fresh (reqOf s a) p :=
+    Fresh (reqOf s a) p ∧ Full (reqOf s a) p :=
   reqOf_fresh s a p hs hp
 
 example : ((State.init exCfg exAddr).send { id := 7, size := 20, src := exPayload }).1.txQueue = [exReq] := by decide
